@@ -6,16 +6,17 @@ from checks import c01
 
 P = "UscxmlVerif.Properties.C13."
 THEOREMS = [
-    (P + "notifications_well_nested", "proved", "for every chart, both engine models and every sequence of API operations (step, run to quiescence, receive, cancel, getState, reset, destroy) of any length, the notifications observed so far are accepted by the nesting automaton Spec.Nesting: every before has its after, a micro-step bracket holds exits, then transitions, then entries, content is reported only inside an exit / transition / entry / the completion, nothing but event, invocation, stable-configuration, completion and issue notices outside a bracket, never two stable-configuration notices without an event or micro-step in between"),
+    (P + "notifications_well_nested", "proved", "for every chart, both engine models and every sequence of API operations (step, run to quiescence, receive, an internal event arriving from outside a macrostep, cancel, getState, reset, destroy) of any length, the notifications observed so far are accepted by the nesting automaton Spec.Nesting: every before has its after, a micro-step bracket holds exits, then transitions, then entries, content is reported only inside an exit / transition / entry / the completion, nothing but event, invocation, stable-configuration, completion and issue notices outside a bracket, never two stable-configuration notices without an event or micro-step in between, and step reports IDLE only when a stable-configuration notice was the last thing that happened (every completed macrostep is followed by its notice)"),
     (P + "good_run", "proved", "the invariant behind it: the automaton's resting stack agrees with the engine's flags (a stable-configuration notice is the last thing that happened only if the engine is neither pristine-less unstable nor in a spontaneous phase)"),
     (P + "good_apply", "proved", "one API operation keeps the invariant"),
     ("UscxmlVerif.Proofs.Nest.large_step_nest", "proved", "one call of LargeMicroStep::step: its notifications take the automaton from one resting stack to another"),
     ("UscxmlVerif.Proofs.Nest.fast_step_nest", "proved", "the same for FastMicroStep::step"),
+    ("UscxmlVerif.Proofs.Flags.large_microstep_stable", "proved", "exits, transitions and entries leave the stable flag alone (it is cleared when transitions are selected, set with the notice)"),
     ("UscxmlVerif.Proofs.Nest.nest_exec", "proved", "executable content (if/elseif/else, foreach, failing elements that abort their block) is reported as properly nested bc/ac pairs for every content tree"),
     (P + "log_is_rendering", "proved", "the log compared with the compiled interpreter is the rendering of exactly these tokens"),
 ]
 FINISH = {"level": "proof"}
-LEAN_FILES = ["UscxmlVerif.Properties.C13", "UscxmlVerif.Proofs.Nest", "UscxmlVerif.Spec.Nesting"]
+LEAN_FILES = ["UscxmlVerif.Properties.C13", "UscxmlVerif.Proofs.Nest", "UscxmlVerif.Proofs.Flags", "UscxmlVerif.Spec.Nesting"]
 
 
 def nest_results(ctx, traces):
@@ -77,6 +78,60 @@ def run_engine(ctx, engine, cases, suite):
     return st
 
 
+def gen_async_ops(r):
+    """API operations in which internal events arrive from outside a macrostep (what the timer thread does for a delayed
+    <send target="#_internal"> and for the error event of a delayed delivery that fails), mostly at an idle interpreter"""
+    ops = [r.choice(["q", "q", "q", "s"])]      # the internal queue exists once the interpreter is initialised
+    for _ in range(r.randint(2, 10)):
+        x = r.random()
+        if x < 0.35: ops += ["i:" + r.choice(["e", "f", "g", "nomatch"]), r.choice(["q", "q", "s"])]
+        elif x < 0.5: ops += ["i:" + r.choice(["e", "f", "g"]), "e:" + r.choice(["e", "f", "g"]), "q"]
+        elif x < 0.65: ops.append("e:" + r.choice(["e", "f", "g"]))
+        elif x < 0.85: ops.append(r.choice(["s", "q"]))
+        elif x < 0.9: ops.append("c")
+        elif x < 0.95: ops += [r.choice(["r", "d"]), "s"]
+        else: ops.append("g")
+    return ops + ["q"]
+
+
+def suite_async(ctx, n):
+    from checks import c10
+    rng = ctx.rng
+    st = dict(inputs=0, injected=0, injected_when_idle=0, well_nested=0, agree=0, violations=0, tokens=0)
+    cases = []
+    for _ in range(n):
+        g = charts.Gen(rng, max_states=rng.choice([3, 5, 8]), p_final=0.3, p_exec=0.6, p_fail=0.1)
+        cases.append((g.chart(), gen_async_ops(rng)))
+    for eng in ("large", "fast"):
+        lines = [c10.api_line(eng, d, ops) for d, ops in cases]
+        H, M = c10.run_api(ctx, lines, variant=None)
+        res = nest_results(ctx, H)
+        for (d, ops), l, h, m, r in zip(cases, lines, H, M, res):
+            th = h.split(" ")
+            st["inputs"] += 1; st["tokens"] += len(th); st["injected"] += sum(1 for o in ops if o.startswith("i:"))
+            st["injected_when_idle"] += sum(1 for a, b in zip(ops, ops[1:]) if a == "q" and b.startswith("i:"))
+            abnormal = [t for t in th if t.startswith(c10.BADTOK)]
+            ok = (r == "ok" or "DIVERGE" in th) and not abnormal
+            if ok: st["well_nested"] += 1
+            if ok and h == m:
+                st["agree"] += 1
+                continue
+            st["violations"] += 1
+            if len(ctx.violations) < 3:
+                if not ok:
+                    k = int(r.split(":")[1]) if ":" in r else 0
+                    ctx.violation("async-%d" % len(ctx.violations), "async-internal", [l],
+                                  detail="engine %s: %s\nchart: %s\nops: %s" % (eng, ("abnormal outcome " + abnormal[0]) if abnormal else
+                                  "notification out of place (or IDLE without a stable-configuration notice) at token %s: %s" % (r, " ".join(th[max(0, k - 8):k + 3])), charts.sexpr(d), ",".join(ops)))
+                else:
+                    k = E.first_diff(th, m.split(" "))
+                    ctx.violation("async-tie", "async-internal", [l], found_input=False,
+                                  detail="engine %s: well nested but differs from the model at token %d (I %s / M %s): notifications_well_nested does not cover this behaviour\nchart: %s\nops: %s"
+                                  % (eng, k, " ".join(th[max(0, k - 3):k + 3]), " ".join(m.split(" ")[max(0, k - 3):k + 3]), charts.sexpr(d), ",".join(ops)))
+    ctx.coverage.setdefault("suites", {})["async-internal"] = st
+    return st
+
+
 def run(ctx):
     ctx.setup()
     ctx.audit(THEOREMS, LEAN_FILES)
@@ -86,14 +141,18 @@ def run(ctx):
     for eng in ("large", "fast"):
         st = run_engine(ctx, eng, cases, "nesting-" + eng)
         tot += st["inputs"]
+    tot += suite_async(ctx, 400 if ctx.tier == "quick" else 6000)["inputs"]
     d, e = cases[-1]
     ctx.sample({"chart": charts.sexpr(d)[:500], "events": e})
     ctx.coverage["evaluations"] = tot
-    ctx.coverage["distinct_nontrivial"] = sum(s["with_errors"] for s in ctx.coverage["suites"].values())
+    ctx.coverage["distinct_nontrivial"] = sum(s.get("with_errors", 0) + s.get("injected_when_idle", 0) for s in ctx.coverage["suites"].values())
     ctx.coverage["rule"] = "traces of both engines on random charts with failing elements at random positions (p=0.15 per element) and top-level finals; non-trivial = run processes at least one error event"
     ctx.assumptions += ["cancel() at a chosen step is exercised by the C10 lifecycle suite"]
 
 
 def replay(ctx, path):
-    import uvlib
-    return uvlib.generic_replay(ctx, path, [(None, "trace", "trace", None)])
+    import uvlib, tempfile, os
+    # request lines of the async suite carry the hex document as a fourth field (harness `api`), the others are `trace` lines
+    api = [l for l in open(path) if len(l.rstrip("\n").split("\t")) >= 4]
+    if not api: return uvlib.generic_replay(ctx, path, [(None, "trace", "trace", None)])
+    return uvlib.generic_replay(ctx, path, [(None, "api", "api", None)])
